@@ -59,9 +59,16 @@ add('C04', "(1) spec/PegMachine.tla is the implementation-shaped small-step mach
     "(2) Every (grammar, text) of the larger universe is parsed under 12 configurations (memoization off for non-left-recursive grammars, perlinememos "
     "0.01/0.5/1/default, prune_memos_on_cut on/off, trace with output discarded, colorize, parseinfo); all outcomes (ok/fail, AST modulo parseinfo, error "
     "class) must be equal. (3) Real executions under tiny memo capacities and with pruning off are recorded and validated by TLC against PegTrace: a memo "
-    "hit is accepted only for a (position, rule) evaluated before with the same result.",
+    "hit is accepted only for a (position, rule) evaluated before with the same result. (4) spec/MemoCache.tla is the memo table itself as coded (a "
+    "bounded dict in order of stores, no refresh on reads, pruning at cuts, left-recursion guards): TLC proves Bounded, NoDupKeys, Sound (a lookup answers "
+    "with the last value stored under its key or with nothing), YoungestKept, NothingBeforeCut, UpdateIsStores, OnlyStoreAdds, LookupPure for every "
+    "operation sequence, capacities 1..3, pruning and memoization on/off, and refutes a true LRU and a wrong-end eviction; every edge of its state graph "
+    "is replayed onto a real BoundedDict through the real context methods (whole ordered table compared after each step), and the memo operations of real "
+    "parses under capacities 1..3 are validated by TLC against spec/MemoTrace.tla (corrupted copies must be rejected). (5) Object-model parses with parse "
+    "information (typed rules behind pass-through rules tried from several alternatives) must give the same nodes and parse information under every memo "
+    "configuration.",
     "Trusted: TLC, projections. Grammars in the scope of KF-C03-1 (StaticLeaderDeviates) are outside Refines (the machine follows the code there; C03 reports it).",
-    "TLA+ spec PegMachine model-checked by TLC under all memo schedules (Refines PegSem) + configuration-matrix replay + trace validation (PegTrace)", "5 C04, 3.3, 3.5")
+    "TLA+ specs PegMachine (all memo schedules, Refines PegSem) and MemoCache (the memo table) model-checked by TLC + configuration-matrix replay + state-graph replay onto the real table + trace validation (PegTrace, MemoTrace)", "5 C04, 3.3, 3.5, 0.6")
 add('C06', "PegSem carries the action family as a behaviour constant (identity, tagging, FailedSemantics on a predicate, raise); TLC evaluates it for "
     "every (grammar, text); model and generated parser are run with 16 concrete semantics objects (10 exception types, _default only, declared "
     "parameters) and compared: value flow, alternatives after FailedSemantics, exception type/object reaching the caller, identity == no semantics, "
